@@ -114,6 +114,12 @@ INFO = {
  'C14-m8': ("argument validation moved inside Call's critical section (explicit Unlock, no defer)", 'a rejected Call(0, f) (documented panic) recovered by its caller on a pool in use: the mutex is never released, queued and later calls never run'),
  'C15-m7': ("SubscribeCancel starts its unsubscribe watcher before SubscribeContext", 'a duplicate SubscribeCancel on an existing (key, target): it panics, the deferred cancel fires the watcher, which unsubscribes the ORIGINAL subscription'),
  'C15-m8': ("SubscribeCancel registers the subscription with the parent context instead of the derived one", 'the returned cancel function called while a publish is parked on that (non-receiving) target: the publish never returns and the internal Unsubscribe waits behind it'),
+ 'C16-m7': ("ConflatedContext counts the live inputs in one pass and registers them in a second", 'an input cancelled while the constructor runs, between the count pass and its registration: counted, never registered, the result can never be cancelled by its inputs'),
+ 'C18-m7': ("a cancellation check before the fatal-error check after a failed call", 'the context cancelled during a call that then fails fatally: the context error with a nil result instead of that call\'s result and the unwrapped error'),
+ 'C18-m8': ("an overflow clamp on the rate in calcExponentialRetry, off by one bit", 'a legal rate in (2.147s, 4.295s]: silently replaced by 2147483647ns, delays are no longer whole slots of the rate'),
+ 'C19-m7': ("a scalar-kind fast path in resolveArgs accepts any argument of the same kind", 'an argument of the same bool/numeric/string kind but a different type (int64 for time.Duration, string for a named string type): passes validation and reflect.Set panics'),
+ 'C19-m8': ("Call takes its config from a sync.Pool and does not clear it on the option-error paths", 'a Call whose non-first option fails, then a Call with fewer option kinds: stale args/results from the failed call are applied'),
+ 'C20-m7': ("ticker created before the initial publish, and the clamp no longer knows the initial value", 'rate shorter than the time between arming the ticker and stamping the first value (about 100 ns): the second value is older than the first'),
 
 }
 
